@@ -38,9 +38,12 @@ impl SubscriptionName {
         let project_id = unparsed.get(PROJECT_PREFIX_LEN..)?;
         let project_id = project_id.get(..project_id.find('/')?)?;
 
-        // Extract the subscription ID
-        let start = PROJECT_PREFIX_LEN + project_id.len() + SUBSCRIPTION_PREFIX_LEN;
-        let subscription_id = unparsed.get(start..).map(|s| s.trim_matches('/'))?;
+        // Check that the project is followed by the `/subscriptions/` segment and extract the subscription ID
+        let start = PROJECT_PREFIX_LEN + project_id.len();
+        let subscription_id = unparsed
+            .get(start..)?
+            .strip_prefix(SUBSCRIPTION_PREFIX)
+            .map(|s| s.trim_matches('/'))?;
 
         Some(SubscriptionName {
             project_id: project_id.into(),
